@@ -546,6 +546,30 @@ class CallMixin(object):
                         res.append(o)
                 return res
             return self.method(inner, name, args, kw, b, node, recv_node)
+        dl = self.dictlike(ty) if isinstance(ty, U) else None
+        if dl is not None and name == "get":
+            sub = self.dl_sub(recv, dl)
+            has = z3.And(self.dl_ismap(recv, dl), core.mhas(sub, args[0]))
+            if not self.in_spec:
+                ok, bad = self.fork(st, self.dl_ismap(recv, dl), getattr(node, "lineno", None), "docget")
+                if bad is not None:
+                    self.do_raise(bad, "AttributeError")
+                if ok is None:
+                    return []
+                st = ok
+            d = args[1] if len(args) > 1 else kw.get("default", NONEV)
+            return [(st, self._select(has, core.mget(sub, args[0]), d))]
+        if dl is not None and name in ("split", "strip", "lower") and dl.get("as_str"):
+            if not self.in_spec:
+                ok, bad = self.fork(st, core.ufun("sf_" + dl["is_str"], [recv], BOOL).t, getattr(node, "lineno", None), "docstr")
+                if bad is not None:
+                    self.do_raise(bad, "AttributeError")
+                if ok is None:
+                    return []
+                st = ok
+            sv = core.ufun("sf_" + dl["as_str"], [recv], STR)
+            outs = getattr(self, "m_str_" + name)(sv, args, kw, st, node)
+            return [(o[0], o[1]) for o in outs]
         h = getattr(self, "m_%s_%s" % (_kind(ty), name), None)
         if h is None and ty is PY and name in getattr(self.reg, "opaque_methods", ()):
             self.notes.append("method .%s() on an opaque object: result opaque, assumed to have no modelled effect and not to raise" % name)
@@ -919,6 +943,37 @@ class CallMixin(object):
     m_str_decode = _str_uf("decode")
 
     def m_str_format(self, recv, args, kw, st, node):
+        # constant template with plain {name} / {} / {0} fields and string arguments: the exact concatenation
+        tnode = node.func.value if isinstance(node, ast.Call) and isinstance(node.func, ast.Attribute) else None
+        if isinstance(tnode, ast.Constant) and isinstance(tnode.value, str) and all(v.ty is STR for v in list(args) + list(kw.values())):
+            import string
+            try:
+                parts = list(string.Formatter().parse(tnode.value))
+                out = None
+                auto = 0
+                ok = True
+                for lit, field, spec, conv in parts:
+                    piece = [mk_str(lit)] if lit else []
+                    if field is not None:
+                        if spec or conv:
+                            ok = False
+                            break
+                        if field == "":
+                            piece.append(args[auto])
+                            auto += 1
+                        elif field.isdigit():
+                            piece.append(args[int(field)])
+                        elif field in kw:
+                            piece.append(kw[field])
+                        else:
+                            ok = False
+                            break
+                    for p_ in piece:
+                        out = p_ if out is None else core.str_concat(out, p_)
+                if ok:
+                    return [(st, out if out is not None else mk_str(""))]
+            except (ValueError, IndexError):
+                pass
         self.notes.append("str.format is an uninterpreted function of its arguments")
         return [(st, fresh(STR, "fmt"))]
 
